@@ -233,6 +233,21 @@ func guardRows(w *World, r *Report, prop string) {
 		}
 	}
 	r.Analysed["guard_rows"] = n
+	// canaries: zoom-domain guard on parameter 1
+	for _, f := range canaryFuncs(w) {
+		if !strings.Contains(f.Name(), "ZoomGuard") {
+			continue
+		}
+		row := guardRow{Func: w.FuncName(f), Class: "Z35", Param: 1}
+		scs, _ := scenariosFor(w, row, f)
+		st, d := Discharged, "both out-of-domain regions fail"
+		for _, sc := range scs {
+			if ok, why := e.check(f, sc, 0); !ok {
+				st, d = Violated, fmt.Sprintf("scenario {%s}: %s", sc, why)
+			}
+		}
+		r.Add(Obligation{Rule: "GUARD", Key: "GUARD / " + w.FuncName(f) + " / argument #1 / Z35", Pos: w.Pos(f.Pos()), Status: st, Detail: d, Canary: true})
+	}
 }
 
 func (e *scEngine) checkRow(f *ssa.Function, sc scenario, row guardRow) (bool, string) {
